@@ -154,34 +154,31 @@ Qed.
 (* the pieces wrap_at cuts a printed location into are good chunks *)
 Lemma forallb_cons_head {P : byte -> bool} c l : l <> [] -> forallb (forallb P) (cons_head c l) = P c && forallb (forallb P) l.
 Proof. destruct l as [|h t]; [congruence|]. intros _. cbn. now rewrite andb_assoc. Qed.
+Lemma forallb_firstn {A} (P : A -> bool) n l : forallb P l = true -> forallb P (firstn n l) = true.
+Proof. revert l; induction n as [|n IH]; intros [|x l]; cbn; try reflexivity. intros H. apply andb_prop in H. destruct H as [H1 H2]. now rewrite H1, IH. Qed.
+Lemma forallb_skipn {A} (P : A -> bool) n l : forallb P l = true -> forallb P (skipn n l) = true.
+Proof. revert l; induction n as [|n IH]; intros [|x l]; cbn; try reflexivity; [tauto|]. intros H. apply andb_prop in H. destruct H as [H1 H2]. now apply IH. Qed.
 Lemma wrap_at_forallb (P : byte -> bool) s w : forallb P s = true -> forallb (forallb P) (wrap_at s w) = true.
 Proof.
-  revert w. induction s as [|c r IH]; intros w H; [reflexivity|]. cbn [forallb] in H. apply andb_prop in H. destruct H as [Hc Hr].
-  cbn [wrap_at]. destruct (byte_eqb "," c).
-  - destruct w as [|[|] w'].
-    + rewrite forallb_cons_head by apply wrap_at_nonempty. now rewrite Hc, IH.
-    + cbn. now rewrite Hc, IH.
-    + rewrite forallb_cons_head by apply wrap_at_nonempty. now rewrite Hc, IH.
-  - rewrite forallb_cons_head by apply wrap_at_nonempty. now rewrite Hc, IH.
+  revert s. induction w as [|n w IH]; intros s H; cbn [wrap_at]; [cbn; now rewrite H|].
+  destruct ((n =? 0)%nat || (length s <=? n)%nat); [cbn; now rewrite H|].
+  cbn [forallb]. rewrite forallb_firstn by exact H. apply IH. apply forallb_skipn. exact H.
 Qed.
 Lemma cons_head_nonempty_all c l : l <> [] -> forallb nonempty l = true -> forallb nonempty (cons_head c l) = true.
 Proof.
   destruct l as [|h t]; [congruence|]. intros _ H. cbn [forallb] in H. apply andb_prop in H. destruct H as [_ H].
   cbn [cons_head forallb nonempty andb]. exact H.
 Qed.
-(* every piece is non-empty when the text does not end with a comma *)
-Lemma wrap_at_nonempty_chunks s w : s <> [] -> last s "x"%byte <> ","%byte -> forallb nonempty (wrap_at s w) = true.
+(* every piece is non-empty (break points lie strictly inside the text) *)
+Lemma wrap_at_nonempty_chunks s w : s <> [] -> forallb nonempty (wrap_at s w) = true.
 Proof.
-  revert w. induction s as [|c r IH]; intros w Hs Hl; [congruence|].
-  destruct r as [|c2 r2].
-  - cbn in Hl. cbn [wrap_at]. destruct (byte_eqb "," c) eqn:E; [apply byte_eqb_eq in E; congruence|]. reflexivity.
-  - assert (Hr : forall w', forallb nonempty (wrap_at (c2 :: r2) w') = true) by (intros w'; apply IH; [discriminate|exact Hl]).
-    remember (c2 :: r2) as rr eqn:Err. cbn [wrap_at]. destruct (byte_eqb "," c).
-    + destruct w as [|[|] w'].
-      * apply cons_head_nonempty_all; [apply wrap_at_nonempty|apply Hr].
-      * cbn [forallb nonempty andb]. apply Hr.
-      * apply cons_head_nonempty_all; [apply wrap_at_nonempty|apply Hr].
-    + apply cons_head_nonempty_all; [apply wrap_at_nonempty|apply Hr].
+  revert s. induction w as [|n w IH]; intros s Hs; cbn [wrap_at].
+  - destruct s; [congruence|reflexivity].
+  - destruct ((n =? 0)%nat || (length s <=? n)%nat) eqn:E; [destruct s; [congruence|reflexivity]|].
+    apply orb_false_iff in E. destruct E as [E1 E2]. apply Nat.eqb_neq in E1. apply Nat.leb_gt in E2.
+    cbn [forallb]. rewrite IH.
+    + destruct n; [lia|]. destruct s; [cbn in E2; lia|reflexivity].
+    + intros E. apply (f_equal (@length byte)) in E. rewrite skipn_length in E. cbn in E. lia.
 Qed.
 
 Lemma digits_last n : all_digits n = true -> exists s c, n = s ++ [c] /\ c <> ","%byte.
@@ -214,8 +211,7 @@ Proof.
   intros W.
   assert (H1 : forallb nonempty (wrap_at (print e) w) = true).
   { destruct (print_last e W) as (s & c & E & Hc). apply wrap_at_nonempty_chunks.
-    - rewrite E. destruct s; discriminate.
-    - rewrite E. rewrite last_last. exact Hc. }
+    rewrite E. destruct s; discriminate. }
   assert (H2 : forallb (forallb (fun c => negb (is_ws c) && negb (byte_eqb "/" c))) (wrap_at (print e) w) = true).
   { apply wrap_at_forallb. apply print_forallb; [|reflexivity|exact W]. intros c Hc. rewrite digit_not_ws by exact Hc.
     destruct c; try reflexivity; vm_compute in Hc; discriminate Hc. }
